@@ -267,6 +267,7 @@ func c16Run(c *Ctx, pfx string, decoders []string, full bool) {
 	if full {
 		c16Panics(c)
 		c16RecvLoops(c, pfx)
+		c16AllocRules(c, pfx)
 	}
 	c16VersionGate(c, pfx)
 	c.count("decoder_roots", ndec)
@@ -627,4 +628,57 @@ func init() {
 			fmt.Printf("CONV %s#%d %s bounded=%v %s\n", fnName(f), ord, c.pos(cv.Pos()), bounded, how)
 		})
 	}})
+}
+
+// exemptions of the allocation / sign rules: one named function each, with the reason
+var c16AllocExempt = map[string]string{
+	"embedded/appendable/remoteapp.(*remoteStorageReader).readAtCompressedFrame": "reader of objects in remote (S3) storage: not one of the components the property lists (on-disk logs), and the reader does not know the object size; same shape as the repaired singleapp.ReadAt",
+}
+var c16SignExempt = map[string]string{
+	"embedded/appendable.(*Metadata).GetInt": "accessor: returns the stored integer as is; the consumers validate it (multiapp: C16/metadata-limits; store: tx-pool option validation refuses non-positive limits; tbtree: requiredNodeSize comparison)",
+}
+
+func c16AllocRules(c *Ctx, pfx string) {
+	r := pfx + "/alloc-bounded"
+	n := 0
+	c.allocSites(func(f *ssa.Function, mk *ssa.MakeSlice, ord int, bounded bool, how string) {
+		n++
+		key := fmt.Sprintf("%s:make#%d", fnName(f), ord)
+		if why, ok := c16AllocExempt[fnName(f)]; ok {
+			c.okTrivial(r, key, c.pos(mk.Pos()), "exempt: "+why)
+			return
+		}
+		c.check(bounded, r, key, c.pos(mk.Pos()), "length derives from a decoded 32/64-bit integer and is compared first: "+how,
+			"make([]T, n) with n taken from a decoded 32/64-bit integer ("+desc(mk.Len)+") and no ordering comparison on that integer dominates the allocation: one damaged length field allocates gigabytes")
+	})
+	c.count("decoded_length_allocations", n)
+	if n < 8 {
+		c.undecided(r, "floor", fmt.Sprintf("only %d allocations driven by a decoded length found (12 confirmed by hand)", n))
+	}
+	r = pfx + "/decoded-length-sign"
+	m := 0
+	c.signConvSites(func(f *ssa.Function, cv *ssa.Convert, ord int, bounded bool, how string) {
+		m++
+		key := fmt.Sprintf("%s:int(uint64)#%d", fnName(f), ord)
+		if why, ok := c16SignExempt[fnName(f)]; ok {
+			c.okTrivial(r, key, c.pos(cv.Pos()), "exempt: "+why)
+			return
+		}
+		c.check(bounded, r, key, c.pos(cv.Pos()), "the decoded value is range-checked: "+how,
+			"a decoded uint64 is converted to int (negative when the top bit is set) and never compared: lengths and indices computed from it can be negative (makeslice / slice bounds panic)")
+	})
+	if m < 3 {
+		c.undecided(r, "floor", fmt.Sprintf("only %d int(uint64) conversions of decoded values found (4 confirmed by hand)", m))
+	}
+	// the chunk size read back from a chunk header is validated before use (division by it, rotation arithmetic)
+	r = pfx + "/metadata-limits"
+	if f := c.mustFn(r, "embedded/appendable/multiapp.OpenWithHooks"); f != nil {
+		pos := whenCond(true, func(a string) bool { return strings.Contains(a, "const:0 < ") && strings.Contains(a, "GetInt") })
+		okE := whenCond(true, func(a string) bool { return strings.Contains(a, "GetInt") && !strings.Contains(a, "<") && !strings.Contains(a, "==") })
+		for name, e := range map[string]edgePred{"fileSize>0": pos, "FILE_SIZE present": okE} {
+			q := &pathQ{fn: f, fromEntry: true, to: successReturn, barrier: e}
+			w := q.bypass()
+			c.check(w == nil, r, fnName(f)+":"+name, c.pos(f.Pos()), "every successful open crosses the "+name+" edge", "a multi-file appendable can be opened without "+name+" (ReadAt/SetOffset divide by the chunk size): "+c.witnessStr(w))
+		}
+	}
 }
